@@ -178,3 +178,5 @@ def run(prog, res, tier):
     side_conditions(prog, res)
     memsafe.run_terminators(prog, res, CFG, reachable)
     r4_handed_then_deleted(prog, res)
+    nt = memsafe.run_strncpy_terminated(prog, res, CFG, reachable)
+    res.floor("E2t.strncpy_terminated", "strncpy calls into fixed arrays with a constant size", nt, 1)
